@@ -40,6 +40,7 @@ type cloneCmp struct {
 	rev      map[types.Object]types.Object
 	tau      map[*types.TypeName]*types.TypeName
 	tauRev   map[*types.TypeName]*types.TypeName
+	decl     map[string]string    // declared objects renamed (for the report)
 	shift    map[types.Object]int // provenance: +1 a holds T where b holds *T, -1 the converse
 	allowPro bool
 	usedPro  int
@@ -51,13 +52,17 @@ type cloneCmp struct {
 
 func newCloneCmp(ia, ib *types.Info) *cloneCmp {
 	return &cloneCmp{ia: ia, ib: ib, obj: map[types.Object]types.Object{}, rev: map[types.Object]types.Object{},
-		tau: map[*types.TypeName]*types.TypeName{}, tauRev: map[*types.TypeName]*types.TypeName{}, shift: map[types.Object]int{}}
+		tau: map[*types.TypeName]*types.TypeName{}, tauRev: map[*types.TypeName]*types.TypeName{}, shift: map[types.Object]int{}, decl: map[string]string{}}
 }
 
 func (c *cloneCmp) snapshot() *cloneCmp {
 	n := *c
 	n.obj, n.rev, n.shift = map[types.Object]types.Object{}, map[types.Object]types.Object{}, map[types.Object]int{}
 	n.tau, n.tauRev = map[*types.TypeName]*types.TypeName{}, map[*types.TypeName]*types.TypeName{}
+	n.decl = map[string]string{}
+	for k, v := range c.decl {
+		n.decl[k] = v
+	}
 	for k, v := range c.obj {
 		n.obj[k] = v
 	}
@@ -253,11 +258,13 @@ func (c *cloneCmp) ident(a, b *ast.Ident) bool {
 			break
 		}
 		if !types.Identical(x.Type(), y.Type()) && c.typeRel(x.Type(), y.Type()) {
+			c.decl[x.Name()] = y.Name()
 			return true
 		}
 	case *types.Var:
 		y, ok := ob.(*types.Var)
 		if ok && x.IsField() == y.IsField() && !types.Identical(x.Type(), y.Type()) && c.typeRel(x.Type(), y.Type()) {
+			c.decl[x.Name()] = y.Name()
 			return true
 		}
 	}
@@ -629,10 +636,8 @@ func (c *cloneCmp) renaming() []string {
 			out = append(out, "type "+a.Name()+" -> "+b.Name())
 		}
 	}
-	for a, b := range c.obj {
-		if a != b && !isLocalObj(a) {
-			out = append(out, a.Name()+" -> "+b.Name())
-		}
+	for a, b := range c.decl {
+		out = append(out, a+" -> "+b)
 	}
 	sort.Strings(out)
 	return out
